@@ -109,6 +109,20 @@ func NumberPool() []NumCase {
 	add(cty.NumberFloatVal(1e23).Multiply(cty.NumberIntVal(3)), "whole-narrow-mantissa", false)
 	add(cty.NumberVal(new(big.Float).SetPrec(100).Add(pow2(120), pow2(30))), "whole-narrow-mantissa", false)
 	add(cty.NumberVal(new(big.Float).SetPrec(24).SetFloat64(16777216*1048577)), "whole-narrow-mantissa", false)
+	// fractions held at precisions other than 53 / 64 / 512 bits (float32-like 24, 100, 200): one decimal text, several exact
+	// values; anything that prints, hashes or caches a number through a float64 or through its text meets them here
+	for _, d := range []string{"0.1", "0.3", "-2.2", "1.00000000001"} {
+		for _, prec := range []uint{24, 100, 200} {
+			add(cty.NumberVal(bigFromString(d, prec)), "fraction-odd-precision", false)
+		}
+	}
+	add(cty.NumberVal(new(big.Float).SetPrec(24).SetFloat64(float64(float32(0.1)))), "fraction-odd-precision", false)
+	add(cty.NumberFloatVal(float64(float32(0.1))), "fraction-odd-precision", false)
+	// the exact value of a float64 fraction held at a wider precision: same VALUE as NumberFloatVal(f), other decimal text
+	for _, f := range []float64{0.1, 0.3, 1e-7, 123.456} {
+		add(cty.NumberVal(new(big.Float).SetPrec(512).SetFloat64(f)), "float64-value-at-512-bits", false)
+		add(cty.NumberVal(new(big.Float).SetPrec(100).SetFloat64(f)), "float64-value-at-100-bits", false)
+	}
 	numberPool = p
 	return p
 }
